@@ -7,6 +7,8 @@ use crate::{
 };
 
 pub(crate) trait Evaluator {
+    /// `false` when the arguments handed to `funcall` are already values.
+    const EVALUATES: bool;
     fn eval(
         ctx: &mut TulispContext,
         value: &TulispObject,
@@ -16,6 +18,7 @@ pub(crate) trait Evaluator {
 
 pub(crate) struct Eval;
 impl Evaluator for Eval {
+    const EVALUATES: bool = true;
     fn eval(
         ctx: &mut TulispContext,
         value: &TulispObject,
@@ -27,6 +30,7 @@ impl Evaluator for Eval {
 
 pub(crate) struct DummyEval;
 impl Evaluator for DummyEval {
+    const EVALUATES: bool = false;
     fn eval(
         _ctx: &mut TulispContext,
         _value: &TulispObject,
@@ -119,7 +123,38 @@ pub(crate) fn funcall<E: Evaluator>(
     args: &TulispObject,
 ) -> Result<TulispObject, Error> {
     match &*func.inner_ref() {
-        TulispValue::Func(ref func) => func(ctx, args),
+        TulispValue::Func(ref func) => {
+            if E::EVALUATES {
+                func(ctx, args)
+            } else {
+                // Built-ins evaluate their own arguments: protect values that
+                // are already evaluated from a second evaluation.
+                let quoted = TulispObject::nil();
+                for arg in args.base_iter() {
+                    let self_evaluating = matches!(
+                        &*arg.inner_ref(),
+                        TulispValue::Int { .. }
+                            | TulispValue::Float { .. }
+                            | TulispValue::String { .. }
+                            | TulispValue::Lambda { .. }
+                            | TulispValue::Func(_)
+                            | TulispValue::Macro(_)
+                            | TulispValue::Defmacro { .. }
+                            | TulispValue::Any(_)
+                            | TulispValue::Bounce
+                            | TulispValue::Nil
+                            | TulispValue::T
+                    );
+                    if self_evaluating {
+                        quoted.push(arg)?;
+                    } else {
+                        let span = arg.span();
+                        quoted.push(TulispValue::Quote { value: arg }.into_ref(span))?;
+                    }
+                }
+                func(ctx, &quoted)
+            }
+        }
         TulispValue::Lambda {
             ref params,
             ref body,
